@@ -17,7 +17,7 @@ for pid in ids:
         "evidence_file": "/verif/evidence/%s.json" % pid,
         "replay_cmd_template": "./check replay {path}",
         "engine": "simrt",
-        "level_claimed": {"category": PROPS[pid]["level"], "text": m["text"], "design_ref": "DESIGN.md section 6, " + pid},
+        "level_claimed": {"category": PROPS[pid]["level"], "text": m["text"], "design_ref": "DESIGN.md Appendix B (as built) and section 6 (plan), " + pid},
         "level_note": m["note"],
         "technique": m.get("technique", "deterministic simulation with fault injection (seeded schedules/faults, reference-model oracle)"),
     })
